@@ -828,6 +828,10 @@ fn count_operand(rng: &mut Rng, cfg: &GenCfg, ty: &Ty) -> FieldValue {
                 FieldValue::Int64(-3),
             ])
             .clone()
+        } else if r >= 88 {
+            // negative operands are perfectly well-typed for a count filter (Int!) and must behave
+            // like any other number: "count > -1" holds for every fold, including the empty one
+            FieldValue::Int64(-(1 + rng.below(2) as i64))
         } else {
             let v = rng.below(4) as i64;
             if rng.chance(50) { FieldValue::Int64(v) } else { FieldValue::Uint64(v as u64) }
